@@ -86,7 +86,7 @@ def check(rep, tier):
     if not cprops.proof_part(rep, "C12"):
         return
     rng = random.Random(C.seed() * 49979687 + 12)
-    n = 150 if tier == "quick" else 1200
+    n = 150 if tier == "quick" else 450
     progs, expect, kind = [], {}, {}
     base = cdiff.gen_programs(rng, n, size=5, feats={"postyield"})
     for i, p in enumerate(base):
